@@ -104,8 +104,10 @@ Qed.
 Section Edits.
 Variable K : rt -> Prop.
 Hypothesis upd_new : forall r, T r -> T (set_tron (set_state (set_dirty (set_listing r listing_empty) true) StStopped) false).
-Hypothesis upd_delete : forall r ls', T r -> T (set_state (set_dirty (set_listing r (with_lines (r_listing r) ls')) true) StStopped).
-Hypothesis upd_renum1 : forall r l, T r -> K (set_listing r l).
+Hypothesis upd_delete : forall r a b, T r ->
+  T (set_state (set_dirty (set_listing r (with_lines (r_listing r)
+       (filter (fun e => negb (in_rng a b (fst e))) (ls_lines (r_listing r))))) true) StStopped).
+Hypothesis upd_renum1 : forall r l a b c, T r -> listing_renum (r_listing r) a b c = Ok l -> K (set_listing r l).
 Hypothesis upd_renum2 : forall r, K r -> T (set_state (set_dirty r true) StStopped).
 
 Lemma tr_do_new : HT (do_new O).
@@ -123,8 +125,8 @@ Proof. unfold do_renum. apply hoare_bind; [tr | intros r]. destruct (r_pc r <? r
   apply hoare_bind; [tr | intros old]. apply hoare_bind; [tr | intros nv]. apply hoare_bind; [tr | intros new].
   (* the listing is replaced and the flag raised in two consecutive updates: in between only K holds *)
   apply hoare3_eq. apply (hoare3_bind T K T T).
-  - intros r0 H0. destruct (listing_renum (r_listing r0) (Z.to_N new) (Z.to_N old) (Z.to_N step)); cbn; try exact H0.
-    apply upd_renum1. exact H0.
+  - intros r0 H0. destruct (listing_renum (r_listing r0) (Z.to_N new) (Z.to_N old) (Z.to_N step)) eqn:El; cbn; try exact H0.
+    exact (upd_renum1 r0 _ _ _ _ H0 El).
   - intros _. apply (hoare3_bind _ T T T).
     + intros r0 H0. cbn. apply upd_renum2. exact H0.
     + intros _. apply hoare3_eq. apply tr_do_end.
@@ -286,8 +288,8 @@ Lemma track_edit_ok : forall h op, is_edit_op op = true -> all_ops op = true -> 
 Proof.
   intros h op He _. apply (tr_edit_ops O T track_frame (fun r => d0 = true -> r_dirty r = true)); try exact He.
   - intros r H. split; cbn; auto.
-  - intros r ls' H. split; cbn; auto.
-  - intros r l H. cbn. exact (proj1 H).
+  - intros r a b H. split; cbn; auto.
+  - intros r l a b c H _. cbn. exact (proj1 H).
   - intros r H. split; cbn; auto.
 Qed.
 
